@@ -15,6 +15,13 @@ THEOREMS = ['Vakt.C12.enfold_inv', 'Vakt.C12.history_coherent', 'Vakt.C12.get_eq
             'Vakt.C12.retrieveAll_eq_backend', 'Vakt.C12.failure_propagates_unchanged',
             'Vakt.C12.mutation_returns_backend_value', 'Vakt.C12.populated_read_no_backend_touch',
             'Vakt.C12.populate_any_batch', 'Vakt.C12.feed_fresh']
+# obligations over what was translated from /repo/vakt/cache.py in this run: EnfoldCache.add / update / delete / get / get_all /
+# populate - every call of self.storage / self.cache made explicit as an effect on a world value holding the two stores - end in the
+# pair of stores, return or raise what, and call the backend exactly when the model's Enfold.step says (lean/Gen/EquivEnfold.lean)
+EXTRA_BUILD = ['+Gen.EquivEnfold']
+GEN_IMPORTS = ['Gen.EquivEnfold']
+GEN_THEOREMS = ['Vakt.GenEquiv.gen_enfold_add', 'Vakt.GenEquiv.gen_enfold_update', 'Vakt.GenEquiv.gen_enfold_delete',
+                'Vakt.GenEquiv.gen_enfold_get', 'Vakt.GenEquiv.gen_enfold_get_all', 'Vakt.GenEquiv.gen_enfold_populate']
 FLOOR = {'quick': 100, 'thorough': 1500}
 ASSUMPTIONS = ['Redis and MongoDB backends are in-process fakes of the client calls (no servers here)']
 BACKENDS = ['memory', 'sqlite', 'redis-json', 'mongo']
